@@ -95,12 +95,12 @@ def observe(op, reply, seg, tier=None):
 
 def observe_connect(greeting_i, seg):
     """connect itself as the operation: greeting + AUTHENTICATE reply under segmentation"""
-    caps = [None, [(b"IMPLEMENTATION", b"x"), (b"SASL", b"LOGIN PLAIN"), (b"SIEVE", b"fileinto"), (b"VERSION", b"1.0")]][greeting_i]
-    srv = refms.RefServer(store={"a": b"keep;\r\n"}, active="a", caps_plain=caps)
+    caps = [None, [(b"IMPLEMENTATION", b"x"), (b"SASL", b"LOGIN PLAIN"), (b"SIEVE", b"fileinto"), (b"VERSION", b"1.0")], None][greeting_i]
+    srv = refms.RefServer(store={"a": b"keep;\r\n"}, active="a", caps_plain=caps, starttls=(greeting_i == 2))
     s = wire.Session(srv)
     s.new_client()
     s.plain.set_seg(seg)
-    o = s.call("connect", "user", "pass", authmech=("LOGIN" if greeting_i else None))
+    o = s.call("connect", "user", "pass", authmech=("LOGIN" if greeting_i == 1 else None), starttls=(greeting_i == 2))
     res = [o.key()]
     if o.kind == "ret" and o.value is True:
         res += [s.call("havespace", "x", 1).key(), s.call("listscripts").key()]
@@ -153,7 +153,7 @@ def op_task(t):
     distinct = set()
     sample = None
     if op == "connect":
-        items = [("greeting%d" % i, i) for i in (0, 1)]
+        items = [("greeting%d" % i, i) for i in (0, 1, 2)]
     elif op == "rename-emulated":
         items = [("emulated", None)]
     else:
